@@ -47,7 +47,6 @@ static int tb_account(int s, int rc, const snap_t *sn, const char *what) {
     if (rc == -EAGAIN) {
         TBLOG[s].refusals++;
         check_unchanged(sn, what, "TB.refuse|effect");
-        if (ON(R_TB) && TBLOG[s].n < m->tb_burst) vfail("TB.refuse", "TB.refuse|early", "%s refused with EAGAIN after only %d successful calls since the bucket (burst %d) was set", what, TBLOG[s].n, m->tb_burst);
         return 1;
     }
     if (rc < 0) return 0;
@@ -60,6 +59,9 @@ static int tb_account(int s, int rc, const snap_t *sn, const char *what) {
     return 0;
 }
 
+static int last_send_rc;
+static int adv_drains;          /* profiles with batching: the loop is drained before the clock moves, so that 'accumulated when the timeout expires' is well defined */
+static void drain(void);
 static int inj_at_entry, nmsg_at_entry;
 /* a pipe write was refused during this call (mailbox full): whatever was sent during the call may have vanished for one recipient */
 static void inj_relax(void) {
@@ -176,7 +178,11 @@ static void do_api(op_t op) {
             if (inj == EBADF) { if (rc < 0) { CX.quit = 1; CX.quit_code = EBADF; } }
             else if (rc < 0 && ON(R_LP)) vfail("LP.ret", "LP.ret|error", "m_ctx_dispatch returned %d although polling did not fail", rc);
             if (rc > 0) check_pass("a batch of events was processed");
-            obs(rc > 0 ? rc : 0);
+            last_dispatch_rc = rc; obs(rc > 0 ? rc : 0);
+            for (int i = 0; i < NM; i++) { mod_t *m = &MD[i]; if (!m->batch_due) continue;
+                if (m->present && m->st == S_RUNNING && m->batch_tmo && ON(R_BA)) for (int k = 0; k < m->nmb; k++) if (!m->mb[k].optional && m->mb[k].kind == 0 && m->mb[k].msg < m->batch_due)
+                    vfail("BA.when", "BA.when|timeout-held", "%s: the batch timeout expired with message #%d accumulated, but the next dispatch did not hand it over", m->name, m->mb[k].msg);
+                m->batch_due = 0; }
         }
         break; }
     /* ------------------------------------------------ module life */
@@ -239,7 +245,7 @@ static void do_api(op_t op) {
             char sg[64]; snprintf(sg, sizeof sg, "ST.refuse|%s-in-%s", nm[k] + 6, SN[st]); REFUSED(rc, what, sg); break; }
         int gen = MD[s].reg_gen;
         if (k == 0) { MD[s].st = S_RUNNING; exp_start[s]++; mt_arm_all(s, 1); rc = m_mod_start(h); }
-        else if (k == 1) { MD[s].st = S_PAUSED; mt_arm_all(s, 0); rc = m_mod_pause(h); mon_flush(); post_push(POST_STOPPED, s, 0); }
+        else if (k == 1) { MD[s].st = S_PAUSED; MD[s].batch_due = 0; mt_arm_all(s, 0); rc = m_mod_pause(h); mon_flush(); post_push(POST_STOPPED, s, 0); }
         else if (k == 2) { MD[s].st = S_RUNNING; mt_arm_all(s, 1); rc = m_mod_resume(h); mon_flush(); post_push(POST_STARTED, s, 0); }
         else { if (st == S_RUNNING) exp_stop_run[s]++; else exp_stop_other[s]++; mon_stop_effects(s); mt_del_all(s); rc = m_mod_stop(h); }
         if (rc && MD[s].reg_gen == gen && MD[s].present) vfail("ST.accept", "ST.accept|state-call", "%s returned %d", what, rc);
@@ -268,6 +274,7 @@ static void do_api(op_t op) {
         if (!legal) { if (msg >= 0) MSG[msg].used = 0;
             const char *sg = mflag(s, M_MOD_DENY_PUB) ? "PM.pub" : (op.c == O_PUB && topic >= T_CTX_STARTED) ? "PM.reserved" : op.c == O_PILL ? "ST.refuse|pill" : "ST.refuse|send";
             REFUSED(rc, what, sg); break; }
+        last_send_rc = rc;
         if (tb_account(s, rc, &sn, what)) { if (msg >= 0) { MSG[msg].used = 0; if (MSG[msg].autofree) lg_free((void *)MSG[msg].payload); } break; }
         if (rc) vfail("PS.accept", "PS.accept", "%s returned %d", what, rc);
         int n = mon_send(msg, to, -1);
@@ -319,13 +326,13 @@ static void do_api(op_t op) {
         rc = m_mod_set_batch_size(h, BSZ[op.b]);
         if (!MD[s].present || ctx_hidden()) { REFUSED(rc, "m_mod_set_batch_size", "ST.refuse|batch"); break; }
         if (rc) vfail("BA.set", "BA.set", "m_mod_set_batch_size returned %d", rc);
-        MD[s].batch_size = BSZ[op.b]; if (BSZ[op.b]) MD[s].ever_batched = 1; break; }
+        MD[s].batch_size = BSZ[op.b]; if (BSZ[op.b]) MD[s].ever_batched = 1; if (MD[s].nmb) MD[s].ba_unsure = 1; break; }
     case O_BATCH_TMO: {
         m_mod_t *h = handle(s); take_snap(&sn);
         rc = m_mod_set_batch_timeout(h, TMO[op.b]);
         if (!MD[s].present || ctx_hidden()) { REFUSED(rc, "m_mod_set_batch_timeout", "ST.refuse|batch"); break; }
         if (rc) vfail("BA.set", "BA.set|timeout", "m_mod_set_batch_timeout(%lu) returned %d", (unsigned long)TMO[op.b], rc);
-        MD[s].batch_tmo = op.b; mt_del(s, -1); MD[s].batch_fired = 0; if (op.b) MD[s].ever_batched = 1;
+        MD[s].batch_tmo = op.b; mt_del(s, -1); MD[s].batch_fired = 0; MD[s].batch_due = 0; if (op.b) MD[s].ever_batched = 1; if (MD[s].nmb) MD[s].ba_unsure = 1;
         if (op.b) mt_set(s, -1, TMO[op.b], 0, MD[s].st == S_RUNNING);
         break; }
     case O_UNSTASH: {
@@ -355,6 +362,7 @@ static void do_api(op_t op) {
             if (kind == K_FD && key != 15 && legal && idx < 0) shim_user_fd(UFD[key].rd, (flags & 1) != 0);
             rc = src_call(h, kind, key, 1, flags, &SRCUP[s][freei]);
             if (!legal || key == 15) { REFUSED(rc, what, key == 15 ? "SR.set|bad-param" : "ST.refuse|src"); if (ON(R_SR)) for (int i = 0; i < NM; i++) audit_srclen(i, what); break; }
+            if (tb_account(s, rc, &sn, what)) break;
             if (idx >= 0) { if (rc != -EEXIST) vfail("SR.set", "SR.set|dup", "%s: key already present, returned %d instead of -EEXIST", what, rc); check_unchanged(&sn, what, "SR.set|dup-effect"); if (api_depth == 1) last_refused = 1; break; }
             if (rc) vfail("SR.set", "SR.set|new", "%s: new key, returned %d", what, rc);
             MD[s].src[freei] = (srcrec_t){ 1, kind, key, flags, 0 };
@@ -362,6 +370,7 @@ static void do_api(op_t op) {
         } else {
             rc = src_call(h, kind, key, 0, 0, NULL);
             if (!legal) { REFUSED(rc, what, "ST.refuse|src"); break; }
+            if (kind != K_TASK && tb_account(s, rc, &sn, what)) break;
             if (kind == K_TASK) { if (rc >= 0) vfail("SR.set", "SR.set|task-dereg", "a task source was deregistered (returned %d)", rc); check_unchanged(&sn, what, "SR.set|task-dereg"); if (api_depth == 1) last_refused = 1; break; }
             if (idx < 0) { REFUSED(rc, what, "SR.set|absent"); break; }
             if (rc) vfail("SR.set", "SR.set|remove", "%s: key present, returned %d", what, rc);
@@ -380,7 +389,7 @@ static void do_api(op_t op) {
     /* ------------------------------------------------ environment / user-held */
     case O_ARM: MD[s].armed[op.b >> 5].act = op.b & 31; MD[s].armed[op.b >> 5].arg = op.d; break;
     case O_READY: { char c = 'x'; if (__real_write(UFD[op.a].wr, &c, 1) == 1) UFD[op.a].bytes++; break; }
-    case O_ADVANCE: shim_advance(ADV[op.a]); mt_advance(); break;
+    case O_ADVANCE: if (adv_drains && api_depth == 1) { api_depth--; drain(); api_depth++; } shim_advance(ADV[op.a]); mt_advance(); break;
     case O_INJECT: if (op.a == INJ_WRITE_EAGAIN) shim_inject_write_eagain = 1; else shim_inject_epoll_errno = op.a == INJ_EPOLL_EINTR ? EINTR : EBADF; break;
     case O_RELEASE: { int r = retained[op.a]; for (int i = op.a; i < nret - 1; i++) retained[i] = retained[i + 1]; nret--; EV[r].refs--; m_mem_unref((void *)EV[r].p); break; }
     default: vfail("INTERNAL", "INTERNAL", "unknown op %d", op.c);
